@@ -134,8 +134,32 @@ def _verify_one(args):
     return out
 
 
+def int_partial_overflow(case):
+    """A-REAL for products: True if, at some cell, the integer-typed inputs of a Multiply alone multiply to something outside int64 - the machine
+    result then depends on where the floats sit in the list (an integer partial product wraps before it meets a float)"""
+    if case.get("class") != "Multiply":
+        return False
+    for spec in case.get("inputs", {}).values():
+        items = spec.get("items") if spec.get("kind") == "list" else None
+        if not items:
+            continue
+        ints = [it for it in items if it.get("dtype") == "int"]
+        if len(ints) < 2:
+            continue
+        for cell in range(min(len(it["data"]) for it in ints)):
+            prod = 1
+            for it in ints:
+                prod *= max(1, abs(int(it["data"][cell])))
+            if prod >= 2 ** 62:
+                return True
+    return False
+
+
 def _expect_one(args):
     name, root, case = args
+    if int_partial_overflow(case):
+        return {"admissible": False, "note": "an integer partial product exceeds int64 (machine overflow is outside A-REAL)", "exc": None, "result": None,
+                "may_raise": [], "inconsistent": False}
     repo = Repo(root)
     SPECS, classes = registry.load(repo)
     try:
@@ -565,6 +589,8 @@ def reorder_cases(repo, classes, names, tier, seed=0):
             k = len(items)
             if k < 2 or any(tuple(it.get("shape", base["shape"])) != tuple(base["shape"]) for it in items):
                 continue
+            if int_partial_overflow(base):
+                continue  # outside A-REAL: the wrapped integer partial product depends on the order by construction
             c = dict(base, params=dict(base["params"]))
             w = c["params"].get("Weights")
             if isinstance(w, list) and len(w) == k and got % 2 == 0:
